@@ -14,7 +14,7 @@ FormKey == <<1, 2, 3, 2, 3, 4, 4, 2, 0, 1, 5, 4>>
 HasLikeRef(base) == \E i, j \in 1..Len(base) : i < j /\ FormKey[base[i]] # 0 /\ FormKey[base[i]] = FormKey[base[j]]
 SetOf(s) == {s[k] : k \in 1..Len(s)}
 \* triples: c and e are <<"none">> or <<"q", n, d>>; v is 0 (absent) or a code point
-Num(x) == IF x[1] = "none" THEN x ELSE LET q == NormQ(x[2], x[3]) IN <<"q", q[1], q[2]>>
+Num(x) == IF x[1] \in {"none", "b"} THEN x ELSE LET q == NormQ(x[2], x[3]) IN <<"q", q[1], q[2]>>
 SameTriple(a, b) == Num(a.c) = Num(b.c) /\ a.v = b.v /\ Num(a.e) = Num(b.e)
 \* an absent coefficient and the coefficient 1 are the same triple when a variable is present
 CoefNorm(tr) == IF tr.v # 0 /\ tr.c[1] = "none" THEN [tr EXCEPT !.c = <<"q", 1, 1>>] ELSE tr
